@@ -41,17 +41,28 @@
     PROVED  stage 2  `json_value_accepts[_tests]`   every value, any nesting depth, any whitespace
     PROVED  stage 3  `json_accepts`, `json_accepts_tests`, `json_accepts_both`
                      every document with a container at top level is accepted with the tree `mirror`
-    OPEN    stage 4  `json_rejects_prefix`          (full statement at the end of the file)
+    PROVED  stage 4  `json_rejects_prefix`          every proper prefix of such a document written without
+                     trailing whitespace is rejected (`.fail`), both grammars
+                     (`Lemmas/JsonPrefix.lean`, `JsonPrefixLex.lean`, `JsonPrefixDoc.lean`, `JsonPrefixTop.lean`)
+    PROVED  modes    `json_modes_accept`, `json_modes_reject_prefix`: the same for the models of the four
+                     execution modes — interpreter L1 and generated code LG, on the regenerated table and on
+                     its optimized version — by C03 (L1 refines L0), C01/C07 (LG = L1, no exception) and C02
+                     (optimizer sound), whose hypotheses are decidable and are evaluated here for both tables
 
-  All for all documents and inputs of any size; `∃ N, ∀ n ≥ N` = for all sufficient fuel.
-  Because one theorem is OPEN, and because the theorems are about the *specification* (the
-  step to the four execution modes is C01–C04's), the engine reports C17 at level "other" and
-  keeps running the failing-input search and the executable specification on every run.
+  All for all documents and inputs of any size; `∃ N, ∀ n ≥ N` = for all sufficient fuel.  Nothing
+  is OPEN.  What stays outside the theorems: the models L1/LG/Opt are tied to the real code by the
+  correspondence runs (C01–C04 and harness/eng_examples.py), and "mirrors json.loads" beyond the
+  spans (`float(token)`, decoding of escapes) is checked by the harness against Python's `json`.
 -/
 import PestModel.Lemmas.Calc
 import PestModel.Lemmas.Json
 import PestModel.Lemmas.JsonDoc
 import PestModel.Lemmas.JsonDocTests
+import PestModel.Lemmas.JsonPrefixTop
+import PestModel.Props.C01
+import PestModel.Props.C02
+import PestModel.Props.C03
+import PestModel.Props.C07
 import PestModel.Props.C18
 import PestModel.Json
 import PestModel.Spec
@@ -302,8 +313,7 @@ end Examples
 
 /-! ## JSON
 
-  Stages 1–3 (tokens, values, documents) are proved for both bundled grammars; stage 4 (prefix
-  rejection) is OPEN. -/
+  Stages 1–4 (tokens, values, documents, prefix rejection) are proved for both bundled grammars. -/
 
 open Json L0
 
@@ -502,25 +512,229 @@ theorem json_accepts_both (fl : Flavour) (d : Doc) (h : d.topLevelIsContainer) :
   | examples => exact json_accepts d h
   | tests => exact json_accepts_tests d
 
-/-! ### OPEN
+/-! ### stage 4: prefixes -/
 
-  -- OPEN (stage 4, prefixes, both grammars):
-  --   theorem json_rejects_prefix (fl : Flavour) (d : Doc) (h : d.topLevelIsContainer) (hw : d.noTrailingWs)
-  --       (q : Str) (hq : q <+: render d) (hne : q ≠ render d) :
-  --       ∃ N, ∀ n, N ≤ n → L0.parse (grammarOf fl) q.toArray n "json" 0 = .fail
-  --   Acceptance is proved by exhibiting the one successful path; rejection has to close *every* path at
-  --   every cut point of every construct (or go through a soundness theorem "what `json` accepts is balanced").
-  --   `Lemmas/Ev.lean` has the failure rules; the case analysis is not done.
-  --
-  -- What the theorems above do not cover, and what covers it on every run:
-  --   * prefix rejection: evaluated with the compiled model on generated documents (driver request
-  --     `J prefixes`: `L0.parse` on every proper prefix), and checked on the implementation in all modes;
-  --   * the step from the L0 specification to the four execution modes of the implementation: that is the
-  --     content of properties C01–C04 (interpreter ⊑ specification, generated code ≈ interpreter, optimizer
-  --     preserves meaning); here it is checked directly by the failing-input search of
-  --     harness/eng_examples.py (both grammars × four modes against `mirror` and against Python's `json`);
-  --   * "mirrors json.loads": `mirror` is a statement about the document as written; that the spans it
-  --     assigns decode to the values `json.loads` returns is checked by the harness on every generated document.
+/-- **C17, JSON half, rejection (stage 4).**  Every *proper prefix* of a rendered document
+    whose top level is an array or object and which is written without trailing whitespace is
+    rejected by both bundled grammars under the specification of pest's semantics: for all
+    sufficient fuel the run of `json` on the prefix answers `.fail` — not success, not "stuck",
+    not "out of fuel".  (Lemmas/JsonPrefix*.lean: wherever the input ends — inside whitespace,
+    a literal, a string or an escape, a number, between the items of a container, before a
+    colon — the construct that is cut fails, or, for a number, stops early with number
+    characters left over; the enclosing loop `("," ~ item)*` then stops where neither a comma
+    nor the closing bracket can follow, so every enclosing container fails, up to `json`.) -/
+theorem json_rejects_prefix (fl : Flavour) (d : Doc) (h : d.topLevelIsContainer) (hw : d.noTrailingWs)
+    (q : Str) (hq : q <+: render d) (hne : q ≠ render d) :
+    ∃ N, ∀ n, N ≤ n → L0.parse (grammarOf fl) q.toArray n "json" 0 = .fail := by
+  cases fl with
+  | examples => exact ex_parse_prefix_fail examplesJson_rules d h hw q hq hne
+  | tests => exact t_parse_prefix_fail testsJson_rules d h hw q hq hne
+
+/-- the hypotheses are met, e.g. by `exDoc` without its trailing line feed and its prefix
+    ` [ -1.5e3 , { "a\n" : [ ]` (the closing `}` and `]` are missing) -/
+example : ({ exDoc with w2 := [] } : Doc).noTrailingWs ∧
+    (render { exDoc with w2 := [] }).take 25 <+: render { exDoc with w2 := [] } ∧
+    (render { exDoc with w2 := [] }).take 25 ≠ render { exDoc with w2 := [] } := by
+  refine ⟨rfl, List.take_prefix _ _, by decide⟩
+
+/-! ## From the specification to the execution modes (models L1 = interpreter, LG = generated code)
+
+  The theorems above are about L0.  C03 (`parse_agrees_with_spec`: L1 refines L0), C01/C07
+  (`modes_agree`: LG = L1, no exception) and C02 (`optimizer_sound`: the optimized rule table
+  means what the un-optimized one means) carry them to the models of the four execution modes.
+  Their hypotheses are decidable checks on the rule table; they hold for both regenerated JSON
+  tables and for their optimized versions (evaluated below), so nothing is assumed. -/
+
+section Modes
+
+/-- the rule table `Parser.from_grammar(text)` runs: the mirror of the optimizer with the
+    exported default passes, applied to the regenerated table -/
+def optOf (g : Grammar) : Grammar := (Opt.optimize g Opt.defaultPasses).getD g
+
+-- the hypotheses of C01 / C02 / C03 / C07, for both regenerated tables and their optimized versions
+example : C07.genShapeB Generated.examplesJson = true ∧ C07.genShapeB Generated.testsJson = true := by decide
+example : C07.skipTotalB Generated.examplesJson = true ∧ C07.skipTotalB Generated.testsJson = true := by decide
+example : C07.callable Generated.examplesJson "json" = true ∧ C07.callable Generated.testsJson "json" = true := by
+  decide
+example : OptS.wfCheck Generated.examplesJson = true ∧ OptS.wfCheck Generated.testsJson = true := by decide
+example : WF.wellFormed Generated.examplesJson = true ∧ WF.wellFormed Generated.testsJson = true := by decide
+
+theorem hyps_plain (fl : Flavour) :
+    C07.GenShape (grammarOf fl) ∧ SkipTotal (grammarOf fl) ∧ C07.callable (grammarOf fl) "json" = true ∧
+      C02.WF (grammarOf fl) := by
+  cases fl with
+  | examples =>
+    exact ⟨C07.genShape_of_genShapeB (by decide), C07.skipTotal_of_skipTotalB (by decide), by decide,
+      C02.wf_of_check (by decide)⟩
+  | tests =>
+    exact ⟨C07.genShape_of_genShapeB (by decide), C07.skipTotal_of_skipTotalB (by decide), by decide,
+      C02.wf_of_check (by decide)⟩
+
+theorem hyps_opt (fl : Flavour) :
+    Opt.optimize (grammarOf fl) Opt.defaultPasses = some (optOf (grammarOf fl)) ∧
+      C07.GenShape (optOf (grammarOf fl)) ∧ C07.callable (optOf (grammarOf fl)) "json" = true := by
+  have key : ∀ g : Grammar, (Opt.optimize g Opt.defaultPasses).isSome = true →
+      Opt.optimize g Opt.defaultPasses = some (optOf g) := by
+    intro g hg
+    unfold optOf
+    cases ho : Opt.optimize g Opt.defaultPasses with
+    | none => rw [ho] at hg; cases hg
+    | some g' => rfl
+  cases fl with
+  | examples =>
+    exact ⟨key _ (by decide +kernel), C07.genShape_of_genShapeB (by decide +kernel), by decide +kernel⟩
+  | tests =>
+    exact ⟨key _ (by decide +kernel), C07.genShape_of_genShapeB (by decide +kernel), by decide +kernel⟩
+
+/-- interpreter and generated code on one rule table, from what the specification says:
+    success with the pairs `ps0` (up to tags) -/
+theorem models_of_spec_ok (g : Grammar) (inp : Input) (hgs : C07.GenShape g) (hsk : SkipTotal g)
+    (hcall : C07.callable g "json" = true) (s : S0) (ps0 : List Pair)
+    (h : ∃ N, ∀ n, N ≤ n → L0.parse g inp n "json" 0 = .ok s ps0) :
+    ∃ N, ∀ n, N ≤ n →
+      (∃ c ps, L1.parse g inp n "json" 0 = .done true c ps ∧ eraseTagsL ps = ps0 ∧ c.pos = s.pos) ∧
+      (∃ c ps, LG.parse g inp n "json" 0 = .done true c ps ∧ eraseTagsL ps = ps0 ∧ c.pos = s.pos) := by
+  obtain ⟨N, h⟩ := h
+  refine ⟨N, fun n hn => ?_⟩
+  have hc := C03.parse_agrees_with_spec g inp hsk n "json" 0
+  rw [h n hn] at hc
+  have hm := C07.modes_agree g inp hgs hsk "json" hcall n 0
+  revert hc hm
+  cases L1.parse g inp n "json" 0 with
+  | oof => intro hc; exact absurd hc (by simp)
+  | exc e => intro hc; exact absurd hc.2 (by simp)
+  | done m c ps =>
+    cases m with
+    | false => intro hc; exact absurd hc.1 (by simp)
+    | true =>
+      intro hc hm
+      obtain ⟨s1, h1, h2, _⟩ := hc
+      simp only [R0.ok.injEq] at h1
+      have hps : eraseTagsL ps = ps0 := h1.2.symm
+      have hpos : c.pos = s.pos := by rw [← h2, h1.1]
+      refine ⟨⟨c, ps, rfl, hps, hpos⟩, ?_⟩
+      revert hm
+      cases LG.parse g inp n "json" 0 with
+      | oof => intro hm; exact absurd hm (by simp)
+      | exc e => intro hm; exact absurd hm (by simp)
+      | done mg cg psg =>
+        cases mg with
+        | false => intro hm; obtain ⟨c1, ps1, hm, _⟩ := hm; exact absurd hm (by simp)
+        | true =>
+          intro hm
+          obtain ⟨c1, hm1, hm2⟩ := hm
+          simp only [R1.done.injEq, true_and] at hm1
+          obtain ⟨hcc, hpp⟩ := hm1
+          exact ⟨cg, psg, rfl, by rw [← hpp]; exact hps, by rw [hm2, ← hcc]; exact hpos⟩
+
+/-- … failure -/
+theorem models_of_spec_fail (g : Grammar) (inp : Input) (hgs : C07.GenShape g) (hsk : SkipTotal g)
+    (hcall : C07.callable g "json" = true)
+    (h : ∃ N, ∀ n, N ≤ n → L0.parse g inp n "json" 0 = .fail) :
+    ∃ N, ∀ n, N ≤ n →
+      (∃ c, L1.parse g inp n "json" 0 = .done false c []) ∧
+      (∃ c ps, LG.parse g inp n "json" 0 = .done false c ps) := by
+  obtain ⟨N, h⟩ := h
+  refine ⟨N, fun n hn => ?_⟩
+  have hc := C03.parse_agrees_with_spec g inp hsk n "json" 0
+  rw [h n hn] at hc
+  have hm := C07.modes_agree g inp hgs hsk "json" hcall n 0
+  revert hc hm
+  cases L1.parse g inp n "json" 0 with
+  | oof => intro hc; exact absurd hc (by simp)
+  | exc e => intro hc; exact absurd hc.2 (by simp)
+  | done m c ps =>
+    cases m with
+    | true => intro hc; obtain ⟨s1, h1, _⟩ := hc; exact absurd h1 (by simp)
+    | false =>
+      intro hc hm
+      obtain ⟨_, hps⟩ := hc
+      subst hps
+      refine ⟨⟨c, rfl⟩, ?_⟩
+      revert hm
+      cases LG.parse g inp n "json" 0 with
+      | oof => intro hm; exact absurd hm (by simp)
+      | exc e => intro hm; exact absurd hm (by simp)
+      | done mg cg psg =>
+        cases mg with
+        | true => intro hm; obtain ⟨c1, hm, _⟩ := hm; exact absurd hm (by simp)
+        | false => intro _; exact ⟨cg, psg, rfl⟩
+
+/-- what the specification says about the un-optimized table, it says about the optimized one -/
+theorem spec_to_opt (fl : Flavour) (inp : Input) (r : R0) (hr : r ≠ .oof)
+    (h : ∃ N, ∀ n, N ≤ n → L0.parse (grammarOf fl) inp n "json" 0 = r) :
+    ∃ N, ∀ n, N ≤ n → L0.parse (optOf (grammarOf fl)) inp n "json" 0 = r := by
+  obtain ⟨N, h⟩ := h
+  obtain ⟨_, _, hcall, hwf⟩ := hyps_plain fl
+  obtain ⟨hopt, _, _⟩ := hyps_opt fl
+  have hdef : (grammarOf fl).lookup "json" ≠ none := by
+    intro e; simp [C07.callable, e] at hcall
+  have hconv : Conv (grammarOf fl) inp (.ident "json" none) (C02.s0 0) r :=
+    ⟨N + 1, by rw [← C02.parse_eq_run]; exact h N (Nat.le_refl _), hr⟩
+  have hconv' := (C02.optimizer_sound _ _ _ (fun p hp => hp) hwf hopt "json" hdef inp 0 (Nat.zero_le _) r).mp hconv
+  obtain ⟨M, hM, _⟩ := hconv'
+  refine ⟨M, fun n hn => ?_⟩
+  rw [C02.parse_eq_run]
+  exact Conv.mono _ inp hM hr (by omega)
+
+/-- **C17, JSON half, acceptance — the four execution modes (models).**  For every document
+    whose top level is a container, with every sufficient recursion budget: the interpreter on
+    the un-optimized table (`interp`), the interpreter on the optimized table (`opt`), the code
+    generated from the un-optimized table (`gen`) and from the optimized table (`optgen`) all
+    return pairs, and — tags aside — exactly the tree `mirror`, ending at the end of the text. -/
+theorem json_modes_accept (fl : Flavour) (d : Doc) (h : d.topLevelIsContainer) :
+    ∃ N, ∀ n, N ≤ n →
+      (∃ c ps, L1.parse (grammarOf fl) (render d).toArray n "json" 0 = .done true c ps ∧
+        eraseTagsL ps = mirror fl d ∧ c.pos = (render d).length) ∧
+      (∃ c ps, LG.parse (grammarOf fl) (render d).toArray n "json" 0 = .done true c ps ∧
+        eraseTagsL ps = mirror fl d ∧ c.pos = (render d).length) ∧
+      (∃ c ps, L1.parse (optOf (grammarOf fl)) (render d).toArray n "json" 0 = .done true c ps ∧
+        eraseTagsL ps = mirror fl d ∧ c.pos = (render d).length) ∧
+      (∃ c ps, LG.parse (optOf (grammarOf fl)) (render d).toArray n "json" 0 = .done true c ps ∧
+        eraseTagsL ps = mirror fl d ∧ c.pos = (render d).length) := by
+  have hspec := json_accepts_both fl d h
+  obtain ⟨hgs, hsk, hcall, hwf⟩ := hyps_plain fl
+  obtain ⟨hopt, hgs', hcall'⟩ := hyps_opt fl
+  have hsk' : SkipTotal (optOf (grammarOf fl)) :=
+    C02.optimized_skip_total _ _ _ (fun p hp => hp) hwf hopt
+  obtain ⟨N1, h1⟩ := models_of_spec_ok _ _ hgs hsk hcall _ _ hspec
+  obtain ⟨N2, h2⟩ := models_of_spec_ok _ _ hgs' hsk' hcall' _ _ (spec_to_opt fl _ _ (by simp) hspec)
+  exact ⟨max N1 N2, fun n hn => ⟨(h1 n (by omega)).1, (h1 n (by omega)).2, (h2 n (by omega)).1, (h2 n (by omega)).2⟩⟩
+
+/-- **C17, JSON half, rejection — the four execution modes (models).**  Every proper prefix of
+    such a document (written without trailing whitespace) makes all four raise
+    `PestParsingError` (`.done false`), with every sufficient recursion budget. -/
+theorem json_modes_reject_prefix (fl : Flavour) (d : Doc) (h : d.topLevelIsContainer) (hw : d.noTrailingWs)
+    (q : Str) (hq : q <+: render d) (hne : q ≠ render d) :
+    ∃ N, ∀ n, N ≤ n →
+      (∃ c, L1.parse (grammarOf fl) q.toArray n "json" 0 = .done false c []) ∧
+      (∃ c ps, LG.parse (grammarOf fl) q.toArray n "json" 0 = .done false c ps) ∧
+      (∃ c, L1.parse (optOf (grammarOf fl)) q.toArray n "json" 0 = .done false c []) ∧
+      (∃ c ps, LG.parse (optOf (grammarOf fl)) q.toArray n "json" 0 = .done false c ps) := by
+  have hspec := json_rejects_prefix fl d h hw q hq hne
+  obtain ⟨hgs, hsk, hcall, hwf⟩ := hyps_plain fl
+  obtain ⟨hopt, hgs', hcall'⟩ := hyps_opt fl
+  have hsk' : SkipTotal (optOf (grammarOf fl)) :=
+    C02.optimized_skip_total _ _ _ (fun p hp => hp) hwf hopt
+  obtain ⟨N1, h1⟩ := models_of_spec_fail _ _ hgs hsk hcall hspec
+  obtain ⟨N2, h2⟩ := models_of_spec_fail _ _ hgs' hsk' hcall' (spec_to_opt fl _ _ (by simp) hspec)
+  exact ⟨max N1 N2, fun n hn => ⟨(h1 n (by omega)).1, (h1 n (by omega)).2, (h2 n (by omega)).1, (h2 n (by omega)).2⟩⟩
+
+end Modes
+
+/-! ### what remains
+
+  Nothing is OPEN in this file.  What the theorems do *not* say, and what covers it on every run:
+    * L1, LG and `Opt` are hand-written models of the interpreter, of the generated code and of the
+      optimizer; they are tied to the real code by the correspondence runs of C01–C04 (and, for the two
+      JSON grammars in particular, by harness/eng_examples.py: the real parsers in the four modes against
+      `mirror` through the driver, on generated documents and all their prefixes);
+    * "mirrors json.loads": `mirror` is a statement about the document as written; that the spans it
+      assigns decode to the values `json.loads` returns (numbers as floats, strings via the escapes) is
+      checked by the harness on every generated document, not proved (there is no model of `json.loads`);
+    * `Doc`/`render` is this file's reading of RFC 8259; the harness checks it against Python's `json`
+      module on every generated document;
+    * recursion budgets: "for all sufficient fuel" — Python's recursion limit is not modelled.
 -/
 
 end C17
